@@ -129,7 +129,13 @@ func init() {
 						have.Add(have, l)
 					}
 					if have.Cmp(want) < 0 {
-						w.Fail("C06", "admitted although the payer holds only %s%s liquid+locked and the fee is %s", have, d, want)
+						if nested {
+							// the listed finding's root cause: for nested operations the module decorators do not run at
+							// all, so their payer-funds pre-check is skipped like the fee comparison (a fee granter pays)
+							w.FailSig("C06", "C06/nested-exec-no-fee", "admitted although the payer holds only %s%s liquid+locked and the fee is %s (wrap=%d)", have, d, want, bt.Tx.Wrap)
+						} else {
+							w.Fail("C06", "admitted although the payer holds only %s%s liquid+locked and the fee is %s", have, d, want)
+						}
 						return
 					}
 				}
